@@ -189,11 +189,11 @@ fn item(ctx: &Ctx, i: usize, rep: &mut Report) {
     }
 }
 
-/// every k >= 1 is legal, also "keep everything" values such as usize::MAX
-fn huge_k(rep: &mut Report) {
+/// every k >= 1 is legal, also "keep everything" values such as usize::MAX. Run in a child process:
+/// an allocation failure aborts the process and cannot be caught by catch_unwind.
+pub fn huge_k_child() -> i32 {
     for k in [usize::MAX, usize::MAX / 2 + 1, 1usize << 40, u32::MAX as usize + 1] {
-        rep.evaluations += 1;
-        let res = guarded(|| -> Option<(String, String)> {
+        let res = guarded(|| -> Option<String> {
             let mut heap: CMSHeap<u64> = CMSHeap::new(k, CountMinSketch::with_params(16, 4));
             for x in [5u64, 6, 5, 7, 5, 6] {
                 heap.add(x);
@@ -201,15 +201,47 @@ fn huge_k(rep: &mut Report) {
             let mut got: Vec<u64> = heap.iter().collect();
             got.sort_unstable();
             if got != vec![5, 6, 7] {
-                return Some(("C10/result-size".into(), format!("k = {}: iter() yields {:?} after adding 5,6,5,7,5,6", k, got)));
+                return Some(format!("iter() yields {:?} after adding 5,6,5,7,5,6", got));
             }
             None
         });
         match res {
-            Ok(None) => rep.count("huge_k_values_ok", 1),
-            Ok(Some((sig, what))) => rep.violation(sig, what, json!({"k": k})),
-            Err(msg) => rep.violation(format!("C10/add-panics/{}", panic_class(&msg)), format!("cmsheap(k={}): panicked: {}", k, msg), json!({"k": k, "stream": [5, 6, 5, 7, 5, 6]})),
+            Ok(None) => println!("HUGEK k={} ok", k),
+            Ok(Some(w)) => {
+                println!("HUGEK k={} wrong: {}", k, w);
+                return 1;
+            }
+            Err(msg) => {
+                println!("HUGEK k={} panic: {}", k, msg);
+                return 1;
+            }
         }
+    }
+    0
+}
+
+fn huge_k(rep: &mut Report) {
+    rep.evaluations += 4;
+    let exe = match std::env::current_exe() {
+        Ok(e) => e,
+        Err(_) => return,
+    };
+    match std::process::Command::new(exe).arg("c10-hugek").output() {
+        Ok(o) => {
+            let out = String::from_utf8_lossy(&o.stdout).to_string();
+            let err: String = String::from_utf8_lossy(&o.stderr).chars().take(400).collect();
+            if o.status.success() {
+                rep.count("huge_k_values_ok", 4);
+            } else {
+                let last = out.lines().last().unwrap_or("").to_string();
+                rep.violation(
+                    "C10/add-panics/huge-k",
+                    format!("CMSHeap with a huge k (usize::MAX, usize::MAX/2+1, 2^40, 2^32): the child process running add() ended abnormally (status {:?}); last line: '{}'; stderr: {}", o.status.code(), last, err),
+                    json!({"stdout": out, "stderr": err, "stream": [5, 6, 5, 7, 5, 6]}),
+                );
+            }
+        }
+        Err(e) => rep.inconclusive.push(format!("cannot spawn the huge-k child: {}", e)),
     }
 }
 
